@@ -792,6 +792,35 @@ func (in *Interp) eval(x gen.Expr, e *env, fe *fenv) (V, *ErrV) {
 			return nil, err
 		}
 		return indexGet(xv, iv)
+	case gen.Slice:
+		// x[lo:hi] of an array: a view of the same elements (generators only use bounds that are in range)
+		xv, err := in.eval(x.X, e, fe)
+		if err != nil {
+			return nil, err
+		}
+		arr, ok := xv.(*ArrV)
+		if !ok {
+			in.unsup("slice of %T", xv)
+		}
+		lo, hi := int64(0), int64(len(arr.E))
+		if x.Lo != nil {
+			v, err := in.eval(x.Lo, e, fe)
+			if err != nil {
+				return nil, err
+			}
+			lo, _ = v.(int64)
+		}
+		if x.Hi != nil {
+			v, err := in.eval(x.Hi, e, fe)
+			if err != nil {
+				return nil, err
+			}
+			hi, _ = v.(int64)
+		}
+		if lo < 0 || hi > int64(len(arr.E)) || lo > hi {
+			return nil, &ErrV{Name: "IndexOutOfBoundsError"}
+		}
+		return &ArrV{E: arr.E[lo:hi]}, nil
 	case gen.Sel:
 		xv, err := in.eval(x.X, e, fe)
 		if err != nil {
